@@ -151,6 +151,16 @@ class EqualsValidator(_ToTupleValidator[ExactMatchT]):
         self.preprocessors = preprocessors
         self.predicate: EqualTo[ExactMatchT] = EqualTo(match)
 
+    def __eq__(self, other: Any) -> bool:
+        # ``match`` is compared together with its exact type, which the validator checks:
+        # ``EqualsValidator(1)`` and ``EqualsValidator(True)`` accept different values
+        return (
+            type(self) == type(other)
+            and type(self.match) is type(other.match)
+            and self.match == other.match
+            and self.preprocessors == other.preprocessors
+        )
+
     async def _validate_to_tuple_async(self, val: Any) -> _ResultTuple[ExactMatchT]:
         return self._validate_to_tuple(val)
 
